@@ -471,9 +471,15 @@ func (e *Env) decodeSkeleton(l *facts.Level, v3 bool) {
 		}
 		return lf.Guards[len(lf.Guards)-1]
 	}
+	// isLast: g is the condition that decides the rejection: it is on the path, and whatever the path tests after
+	// it only chooses how the error value is dressed (every path through it is judged on its own: it must return
+	// an error matching the cause's sentinel, and no path through it may succeed - success demands the negations)
 	isLast := func(lf *ir.Leaf, g *ir.Term) bool {
 		lg := lastGuard(lf)
-		return lg != nil && lg.Key() == g.Key()
+		if lg != nil && lg.Key() == g.Key() {
+			return true
+		}
+		return hasGuard(lf, g)
 	}
 	returns := append(append(append([]*ir.Leaf{}, d.Early...), d.InLp...), d.After...)
 	for _, lf := range returns {
